@@ -1,3 +1,5 @@
+import NrDaemon.Props.Reviewed
+import NrDaemon.Gen.Skeleton
 import NrDaemon.Lemmas.Metrics
 import NrDaemon.Model.Rules
 import NrDaemon.Props.Tied
@@ -469,3 +471,12 @@ theorem C07_payload_carries_its_source (s : PState) (runId : String) (run : RunM
   all_goals first
     | (exact absurd h.1 (by decide))
     | (have := txnPayloads_cat _ _ _ h; simp at this)
+
+
+/-! ## Ties to the current source: the functions transcribed by the model have not changed since they were reviewed (`Props/Reviewed.lean`) -/
+
+/-- **C07 (tie).**  `applyRules`: rules are applied to every name; the renamed table remembers its source. -/
+theorem C07_apply_rules_source_tied : Gen.Skeleton.applyRules = Reviewed.applyRules := rfl
+
+/-- **C07 (tie).**  `metricsFailedHarvest`: the un-renamed table is handed back. -/
+theorem C07_failed_harvest_source_tied : Gen.Skeleton.metricsFailedHarvest = Reviewed.metricsFailedHarvest := rfl
